@@ -207,6 +207,43 @@ fn rotated_wallet(e: &Env, t: &mut T) {
     }
 }
 
+// ---------------------------------------------------------------- (A3) program fees switched off for the group
+
+/// The foreign group of the environment runs with program fees switched off, yet its banks can still hold a program
+/// bucket (booked before the switch, or the program's share of origination fees). Whoever cranks the collection
+/// offers a token account for it: only the global fee wallet's canonical one may be paid.
+fn program_fees_off(e: &Env, t: &mut T) {
+    let f = &e.f;
+    let w = &e.w;
+    for off in [true, false] {
+        let (ww, bh) = if off { (f, &f.banks[0]) } else { (w, &w.banks[0]) };
+        let mut s = e.s.clone();
+        world::edit_bank(&mut s, &bh.key, |b| {
+            b.collected_program_fees_outstanding = raw_i80(7.75).into();
+            b.collected_group_fees_outstanding = raw_i80(0.0).into();
+            b.collected_insurance_fees_outstanding = raw_i80(0.0).into();
+        });
+        let enabled = world::group(&s, &ww.group).group_flags & 1 != 0;
+        let outsider = w.users[1].tokens.get(&bh.mint).copied();
+        for (which, dest) in [("canonical", Some(bh.fee_ata)), ("outsider", outsider)] {
+            let Some(dest) = dest else { continue };
+            let mut post = s.clone();
+            let r = process_tx(&mut post, &Tx::one(ix::collect_bank_fees(ww.group, bh.key, dest, bh.token_program, ww.mint_meta(bh)), &[act::stranger()]));
+            t.cells += 1;
+            let got = world::token_amount(&post, &dest) as i128 - world::token_amount(&s, &dest) as i128;
+            t.class(format!("program_fees_{}:{which}:{}", if enabled { "on" } else { "off" }, if r.ok() { "ok" } else { "refused" }));
+            if r.ok() && which == "outsider" && got > 0 {
+                t.found.push(Found {
+                    clause: "C19.destination_receives_its_bucket".into(),
+                    sig: format!("collect:program_fees_{}:outsider", if enabled { "on" } else { "off" }),
+                    detail: format!("bank {} (group program fees {}): collection paid {got} of the program bucket into a token account that is not the global fee wallet's", bh.label, if enabled { "on" } else { "off" }),
+                    replay: json!({"model": "C19A3", "program_fees_off": off}),
+                });
+            }
+        }
+    }
+}
+
 // ---------------------------------------------------------------- (B) draw-downs
 
 fn drawdowns(e: &Env, t: &mut T) {
@@ -695,6 +732,7 @@ pub fn run(tier: Tier) -> Outcome {
     let mut t = T { cells: 0, classes: BTreeMap::new(), found: vec![], samples: vec![] };
     fee_collection(&e, &mut t);
     rotated_wallet(&e, &mut t);
+    program_fees_off(&e, &mut t);
     drawdowns(&e, &mut t);
     repointed_destination(&e, &mut t);
     emissions_funding(&e, &mut t);
@@ -708,7 +746,7 @@ pub fn run(tier: Tier) -> Outcome {
         *n <= 2
     }).collect();
     let ok: u64 = t.classes.iter().filter(|(k, _)| k.ends_with(":ok") || k.contains(":ok:")).map(|(_, v)| *v).sum();
-    for need in ["collect:B6:ok:limited_by_liquidity", "collect:B6:ok:paid_in_full", "emissions:ample:Claim:ok", "emissions:nearly_exhausted:Claim:ok", "emissions:borrow_only:debt:earned", "emissions:both_sides:debt:earned", "emissions:both_sides:deposit:earned", "emissions:borrow_only:Claim:ok", "rewards:withdraw_emissions:normal:entitled:ok", "drawdown:withdraw_fees:entitled:ok", "rotated_wallet:B6:cache_stale:new_wallet:ok", "funding:spl:top_up:ok", "repoint:entitled:own_group:repointed:paid", "repoint:not_entitled:foreign_group:refused:not_paid", "funding:t22_fee1pct:top_up:ok", "funding:t22_fee_capped:top_up:ok", "rotated_wallet:B6:propagated:new_wallet:ok"] {
+    for need in ["collect:B6:ok:limited_by_liquidity", "collect:B6:ok:paid_in_full", "emissions:ample:Claim:ok", "emissions:nearly_exhausted:Claim:ok", "emissions:borrow_only:debt:earned", "emissions:both_sides:debt:earned", "emissions:both_sides:deposit:earned", "emissions:borrow_only:Claim:ok", "rewards:withdraw_emissions:normal:entitled:ok", "drawdown:withdraw_fees:entitled:ok", "rotated_wallet:B6:cache_stale:new_wallet:ok", "funding:spl:top_up:ok", "repoint:entitled:own_group:repointed:paid", "repoint:not_entitled:foreign_group:refused:not_paid", "funding:t22_fee1pct:top_up:ok", "funding:t22_fee_capped:top_up:ok", "rotated_wallet:B6:propagated:new_wallet:ok", "program_fees_off:canonical:ok", "program_fees_off:outsider:refused"] {
         if *t.classes.get(need).unwrap_or(&0) == 0 {
             o.machinery.push(format!("vacuity guard: class {need} never occurred"));
         }
@@ -720,7 +758,7 @@ pub fn run(tier: Tier) -> Outcome {
         "evaluations": t.cells,
         "distinct_nontrivial": ok,
         "emission_states": states,
-        "rule": "(A) buckets {0, 0.25, 1, 1.75, 100.5, 250.5}^3 x liquidity {0, 1, 5, 300, 352, 353, 1e6} x {SPL bank, Token-2022 bank with a 1 % transfer fee}: each bucket falls by a whole number not above its whole part, the liquidity vault pays exactly that sum, each of insurance vault / fee vault / global fee wallet's canonical token account receives its own bucket's amount (net of the mint's fee), everything whole is paid when liquidity suffices; (A2) after the global fee admin rotated the fee wallet, with the group's cached copy {stale, propagated}, collection offered the token account of {previous, current} wallet: nothing may be paid to the previous wallet's; (B) {withdraw_fees, withdraw_insurance, withdraw_fees_permissionless} x 12 signers x {fixed destination, another token account}; (B2) 12 signers x {own, foreign group in the group slot} re-point the fee destination, then a stranger withdraws permissionlessly into it: only the bank's own group admin can make that pay; (C0) setup_emissions x top-up through update_emissions_parameters x reward mint {SPL, Token-2022 without fee, 1 % fee, fee capped at 700} x totals {1, 99, 100, 1e6, 123456789} x top-ups {0, 1, 101, 1e6, 77777777}: the booked remaining budget never exceeds the tokens in the reward vault; (C) every sequence up to depth 4 (quick) / 5 of {deposit small / large, withdraw, withdraw-all, settle, claim} by two accounts, clock advances {30 d, 1 y} (at most two) and the emissions admin switching the lending rewards off / on (at most twice) x budgets {ample, nearly exhausted, zero rate, high rate, ample but initially switched off}: credited rewards = elapsed x size-before x rate / year capped by the remaining budget, where *elapsed* is measured by the reference's own ledger of when each position was last touched (not read back from the program's field) and nothing is earned while the rewards are switched off at the time of the touch; budget falls by exactly that and never below zero; (C2) the same judgement on a bank that rewards borrowers / both sides (u0 lends, u1 owes; interest switched off): every sequence up to depth 3 (quick) / 4 of {settle either, lender deposits, borrower repays / borrows a little, claim by either, 30-day advance (at most two)}: a debt earns iff borrowing rewards are on, a deposit iff lending rewards are on, each on its own size; (D) reward withdrawal {signed, permissionless} x 12 signers x {normal, in receivership, frozen, disabled} x {configured destination, another reward token account}",
+        "rule": "(A) buckets {0, 0.25, 1, 1.75, 100.5, 250.5}^3 x liquidity {0, 1, 5, 300, 352, 353, 1e6} x {SPL bank, Token-2022 bank with a 1 % transfer fee}: each bucket falls by a whole number not above its whole part, the liquidity vault pays exactly that sum, each of insurance vault / fee vault / global fee wallet's canonical token account receives its own bucket's amount (net of the mint's fee), everything whole is paid when liquidity suffices; (A2) after the global fee admin rotated the fee wallet, with the group's cached copy {stale, propagated}, collection offered the token account of {previous, current} wallet: nothing may be paid to the previous wallet's; (A3) a bank of a group whose program fees are switched off still holds a program bucket: collection offered the canonical fee-wallet token account / an outsider's; (B) {withdraw_fees, withdraw_insurance, withdraw_fees_permissionless} x 12 signers x {fixed destination, another token account}; (B2) 12 signers x {own, foreign group in the group slot} re-point the fee destination, then a stranger withdraws permissionlessly into it: only the bank's own group admin can make that pay; (C0) setup_emissions x top-up through update_emissions_parameters x reward mint {SPL, Token-2022 without fee, 1 % fee, fee capped at 700} x totals {1, 99, 100, 1e6, 123456789} x top-ups {0, 1, 101, 1e6, 77777777}: the booked remaining budget never exceeds the tokens in the reward vault; (C) every sequence up to depth 4 (quick) / 5 of {deposit small / large, withdraw, withdraw-all, settle, claim} by two accounts, clock advances {30 d, 1 y} (at most two) and the emissions admin switching the lending rewards off / on (at most twice) x budgets {ample, nearly exhausted, zero rate, high rate, ample but initially switched off}: credited rewards = elapsed x size-before x rate / year capped by the remaining budget, where *elapsed* is measured by the reference's own ledger of when each position was last touched (not read back from the program's field) and nothing is earned while the rewards are switched off at the time of the touch; budget falls by exactly that and never below zero; (C2) the same judgement on a bank that rewards borrowers / both sides (u0 lends, u1 owes; interest switched off): every sequence up to depth 3 (quick) / 4 of {settle either, lender deposits, borrower repays / borrows a little, claim by either, 30-day advance (at most two)}: a debt earns iff borrowing rewards are on, a deposit iff lending rewards are on, each on its own size; (D) reward withdrawal {signed, permissionless} x 12 signers x {normal, in receivership, frozen, disabled} x {configured destination, another reward token account}",
         "exhaustive": TRUNCATED.load(std::sync::atomic::Ordering::Relaxed) == 0,
         "cap_hit": if TRUNCATED.load(std::sync::atomic::Ordering::Relaxed) == 0 { serde_json::Value::Null } else { json!(format!("reward-sequence frontier capped at {} states per layer; {} states were dropped from the last layers", FRONTIER_CAP, TRUNCATED.load(std::sync::atomic::Ordering::Relaxed))) },
         "outcome_classes": t.classes,
